@@ -4,8 +4,14 @@ package c03
 import (
 	"fmt"
 	"math/big"
+	"path/filepath"
 	"reflect"
 	"strings"
+	"verif/conv"
+	"verif/harness/c16"
+	"verif/realdata"
+	rboc "verif/ref/boc"
+	"verif/ref/cell"
 
 	tb "github.com/tonkeeper/tongo/boc"
 	"github.com/tonkeeper/tongo/tlb"
@@ -114,6 +120,134 @@ func harnesses(r *fw.Run) []fw.HarnessSpec {
 		c.Label("type %s lenient=%v", e.Name, g.Lenient)
 		c.Outcome(tlbx.RoundTrip(c, e.Name, v, !g.Lenient))
 	}}})
+
+	// messages of every layout (init absent / inline / in a reference, body inline / in a reference, bodies with
+	// references, exotic and levelled bodies) produced by the reference encoder: decode, encode again, decode again
+	mpool := c16.Pool(seed)
+	add("messages-decode-reencode", r.Pick(1, 2), func(c *enum.Ctx) {
+		m, ok := c16.BuildMessage(c, seed, mpool)
+		if !ok {
+			c.Skip()
+			return
+		}
+		w, err := m.Cell()
+		if err != nil {
+			c.Skip()
+			return
+		}
+		h := w.ReprHash()
+		c.Case(h[:], true)
+		c.Label("message %+v", m)
+		c.Try("panic:message-reencode", func() {
+			raw, err := rboc.Serialize([]*cell.Cell{w}, rboc.Options{})
+			if err != nil {
+				c.Skip()
+				return
+			}
+			roots, err := tb.DeserializeBoc(raw)
+			if err != nil {
+				c.Fail("setup", "%v", err)
+				return
+			}
+			var got tlb.Message
+			if err := tlb.Unmarshal(roots[0], &got); err != nil {
+				c.Fail("decode-error:tlb.Message", "a conforming message does not decode: %v", err)
+				return
+			}
+			enc := tb.NewCell()
+			if err := tlb.Marshal(enc, got); err != nil {
+				c.Fail("reencode-error:tlb.Message", "the decoded message does not encode: %v", err)
+				return
+			}
+			if m.Body.Special || m.Body.Mask != 0 || (m.Init != nil && (w.Mask != 0)) {
+				// exotic / levelled cells rebuilt in memory lose type or level (C16 known finding): only the decode is judged
+				c.Outcome("decoded-only")
+				return
+			}
+			rc, err := conv.FromTongo(enc)
+			if err != nil {
+				c.Fail("reencode-error:tlb.Message", "re-encoded cell is malformed: %v", err)
+				return
+			}
+			if rc.ReprHash() != h {
+				c.Fail("reencode-hash:tlb.Message", "encode(decode(cell)) differs from the cell: got %s want %s", rc.Describe(), w.Describe())
+				return
+			}
+			c.Outcome("identical")
+		})
+	})
+
+	// values decoded from real blocks are in the domain of their types by construction; a single in-domain change of
+	// one field keeps them there, so the strict round trip applies to the large hand-decoded records as well
+	var realBlocks []realdata.Item
+	for _, it := range realdata.BOCs() {
+		if filepath.Ext(it.Origin) == ".bin" && len(it.Data) > 100000 {
+			realBlocks = append(realBlocks, it)
+		}
+	}
+	add("real-transactions-one-field-changed", 0, func(c *enum.Ctx) {
+		if len(realBlocks) == 0 {
+			c.Skip()
+			return
+		}
+		it := realBlocks[c.ChooseFree(len(realBlocks))]
+		ti := c.ChooseFree(6)
+		change := c.ChooseFree(6)
+		c.Case([]byte(fmt.Sprintf("realtx/%s/%d/%d", it.Origin, ti, change)), true)
+		c.Label("%s transaction #%d change %d", it.Origin, ti, change)
+		c.Try("panic:real-tx-roundtrip", func() {
+			roots, err := tb.DeserializeBoc(it.Data)
+			if err != nil {
+				c.Skip()
+				return
+			}
+			var blk tlb.Block
+			if tlb.Unmarshal(roots[0], &blk) != nil {
+				c.Skip()
+				return
+			}
+			txs := blk.AllTransactions()
+			if ti >= len(txs) {
+				c.Skip()
+				return
+			}
+			tx := *txs[ti]
+			extra := func(n int) tlb.ExtraCurrencyCollection {
+				var e tlb.ExtraCurrencyCollection
+				for k := 0; k < n; k++ {
+					e.Dict.Put(tlb.Uint32(7+100*k), tlb.VarUInteger32(*big.NewInt(int64(1000 + k))))
+				}
+				return e
+			}
+			switch change {
+			case 1:
+				tx.TotalFees.Other = extra(1)
+			case 2:
+				tx.TotalFees.Other = extra(2)
+			case 3:
+				tx.TotalFees.Grams = 1<<64 - 1
+			case 4:
+				tx.OutMsgCnt = 0x7fff
+			case 5:
+				tx.Now = 1<<32 - 1
+				tx.PrevTransLt = 1<<64 - 1
+			}
+			// the changed value still carries the hash cached from its source cell: take it through the codec once
+			// (that alone must work), then judge the strict round trip of the decoder-produced value
+			enc := tb.NewCell()
+			if err := tlb.Marshal(enc, tx); err != nil {
+				c.Fail("encode-error:tlb.Transaction", "a real transaction with one in-domain field changed does not encode: %v", err)
+				return
+			}
+			var tx2 tlb.Transaction
+			if err := tlb.Unmarshal(enc, &tx2); err != nil {
+				c.Fail("decode-error:tlb.Transaction", "own encoding of a real transaction with one in-domain field changed (change %d) cannot be decoded: %v", change, err)
+				return
+			}
+			out := tlbx.RoundTrip(c, "tlb.Transaction", reflect.ValueOf(&tx2).Elem(), true)
+			c.Outcome(out)
+		})
+	})
 
 	// explicit constructive families for hand-written codecs (strict)
 	add("big-integers-sequences", 0, func(c *enum.Ctx) {
